@@ -1,11 +1,15 @@
 import PyrollModel.Gen.C02Hooks
+import PyrollModel.Gen.C02Extra
 
 /-
   Lifecycle — model of the hook value life-cycle of pyroll.core (C02).
 
   Mirrors `Hook.__get__ / __set__ / __delete__`, `Hook.get_result`, `HookHost.reevaluate_cache`,
-  `has_set / has_cached / has_set_or_cached / has_value`, `evaluate_and_set_hooks`, `root_hook_fallback`
-  (pyroll/core/hooks.py) and the hand-over `Unit.Profile.__init__` (pyroll/core/unit/unit.py).
+  `has_set / has_cached / has_set_or_cached / has_value`, `evaluate_and_set_hooks` (with its inner generator `_gen`),
+  `root_hook_fallback`, `HookFunction.__call__` (executing marks, `cycle`), `Hook.add_function / __call__ /
+  remove_function`, `HookFunction.__enter__ / __exit__` (`with` blocks), `Hook.functions_gen` (store order),
+  `_RootHooksList.add / insert_before / insert_after / remove_last` (pyroll/core/hooks.py) and the hand-over
+  `Unit.Profile.__init__` (pyroll/core/unit/unit.py).  `HookHost.__copy__`: `PyrollModel/LifecycleCopy.lean`.
 
   * an instance has an ordered `dict` (explicit values, python `__dict__` restricted to hook names) and an
     ordered `cache` (python `__cache__`; an entry may hold `None`, which `reevaluate_cache` can store);
@@ -22,6 +26,26 @@ import PyrollModel.Gen.C02Hooks
     `Gen.C02.Hooks.reevalMode`               → `reeval` (what `reevaluate_cache` does with the remembered names),
     `Gen.C02.Hooks.getChecks`, `getStoreAfter` → `noneOutcome` (a `None` result of `get_result` raises AttributeError and
                                                  nothing is stored: the check exists and precedes the store).
+
+  Second generated module `PyrollModel/Gen/C02Extra.lean` (`driver/translate/c02_extra.py`), CONSUMED here:
+    `callDiscardGuard`, `callDiscardInFinally` → `discards` / `State.leave` (`HookFunction.__call__`: the per-(registration,
+                                                 instance) "currently executing" mark is removed in the `finally`, i.e. also
+                                                 when the function RAISED, unless the call was a cycled one),
+    `functionTiers`, `yieldOver`, `yieldReversed` → `tierOrder`, `tierRegs`, `order` (`Hook.functions_gen`),
+    `addStoreFor`                              → `tierOfFlags` (`Hook.add_function`: tryfirst / trylast),
+    `removeStores`, `removeMatches`            → `removes` (`Hook.remove_function`: the registration OBJECT is removed),
+    `rootAddMode`, `insertBeforeShift`, `insertAfterShift`, `removeLastWhich` → `rootAdd`, `insertRel`, `rootRemove`
+                                                 (`_RootHooksList.add / insert_before / insert_after / remove_last`).
+
+  FAILED EVALUATIONS AND EXECUTING MARKS.  `State.active` is the union of the `_active_instances` sets of all registrations:
+  `(key, i)` = registration `key` is currently executing on instance `i`.  `ev` sets the mark before a function body runs
+  and removes it on EVERY way out (value, `None`, AttributeError, TypeError, exhausted fuel) as the source says; a
+  registration whose function takes the `cycle` parameter (`Body.cread`, `Body.ctry`) returns `None` at once when it
+  finds its own mark.
+
+  REGISTRATIONS are a multiset: `Reg.id` is the FUNCTION (what the invocation trace shows), `Reg.key` the registration
+  object (`HookFunction`, what `remove_function` / leaving a `with` block removes), `Reg.tier` the store
+  (0 `tryfirst`, 1 normal, 2 `trylast`).  One function may be registered several times.
 
   Executable; tied to the code by driver/props/c02.py.
 -/
@@ -51,7 +75,16 @@ inductive Body where
   | none                                  -- `return None`
   | read (m : Name) (k c : Int)           -- `return self.m * k + c`            (errors propagate)
   | tryRead (m : Name) (k c : Int)        -- `if self.has_value(m): return self.m * k + c`   (else `None`)
+  | cread (m : Name) (k c : Int)          -- `def f(self, cycle): if cycle: return None` then as `read`
+  | ctry (m : Name) (k c : Int)           -- `def f(self, cycle): if cycle: return None` then as `tryRead`
   deriving DecidableEq, Repr
+
+/-- the body a registered function executes when `HookFunction.__call__` hands it `cycle` (only functions with that
+parameter look at it; an explicit callable is never given one) -/
+def Body.under (cyc : Bool) : Body → Body
+  | .cread m k c => if cyc then .none else .read m k c
+  | .ctry m k c => if cyc then .none else .tryRead m k c
+  | b => b
 
 /-- what can sit in `__dict__` under a hook name.  A callable is known to the model only by the number of parameters
 `inspect.signature` reports for it (`Hook.__get__`: `len(inspect.signature(v).parameters) == 0` → `v()`, else
@@ -99,10 +132,12 @@ def keys {α : Type} (l : List (Name × α)) : List Name := l.map (·.1)
 /-! ### state -/
 
 structure Reg where
-  id : Id
+  id : Id                                  -- the FUNCTION (logged in the invocation trace)
   cls : Cls
   hook : Name
   body : Body
+  key : Id := id                           -- the REGISTRATION object (`HookFunction`): what `remove_function` matches
+  tier : Nat := 1                          -- 0 `_first_functions` (tryfirst), 1 `_functions`, 2 `_last_functions` (trylast)
   deriving DecidableEq, Repr
 
 structure Obj where
@@ -119,11 +154,12 @@ structure State where
   regs : List Reg                          -- live registrations in registration order
   roots : List (Cls × Name)                -- `root_hooks` (owner, name)
   trace : List Id                          -- invocation log
+  active : List (Id × Inst) := []          -- executing marks: (registration key, instance) (`HookFunction._active_instances`)
 
 def blank : Obj := { cls := 0, dict := [], cache := [], fb := none }
 
 def init : State :=
-  { n := 0, obj := fun _ => blank, mro := fun c => [c], regs := [], roots := [], trace := [] }
+  { n := 0, obj := fun _ => blank, mro := fun c => [c], regs := [], roots := [], trace := [], active := [] }
 
 def State.setObj (st : State) (i : Inst) (o : Obj) : State :=
   { st with obj := fun j => if j = i then o else st.obj j }
@@ -138,9 +174,103 @@ def State.remember (st : State) (i : Inst) (n : Name) (v : Option Val) : State :
 def State.assign (st : State) (i : Inst) (n : Name) (v : PyVal) : State :=
   st.setObj i { st.obj i with dict := put n v (st.obj i).dict }
 
-/-- resolution order of the plain implementations: classes in MRO order, latest registration first -/
-def order (st : State) (c : Cls) (n : Name) : List Reg :=
-  (st.mro c).flatMap fun k => (st.regs.filter fun r => r.cls == k && r.hook == n).reverse
+/-! ### stores (tiers) of the plain implementations, as the GENERATED tables name them -/
+
+def storeName : Nat → String
+  | 0 => "_first_functions"
+  | 1 => "_functions"
+  | _ => "_last_functions"
+
+def tierOfStore (s : String) : Option Nat :=
+  if s == "_first_functions" then some 0 else if s == "_functions" then some 1
+  else if s == "_last_functions" then some 2 else none
+
+/-- the non-wrapper stores in the order `Hook.functions_gen` yields them -/
+def tierOrder : List Nat := Gen.C02.Extra.functionTiers.filterMap tierOfStore
+
+/-- `Hook._yield_functions_from(store)`: the classes of the MRO in order, per class the registrations of that store
+(latest first when the source says `reversed`) -/
+def tierRegs (st : State) (c : Cls) (n : Name) (t : Nat) : List Reg :=
+  (if Gen.C02.Extra.yieldOver == "self.owner.__mro__" then st.mro c else [c]).flatMap fun k =>
+    if Gen.C02.Extra.yieldReversed then (st.regs.filter fun r => r.cls == k && r.hook == n && r.tier == t).reverse
+    else st.regs.filter fun r => r.cls == k && r.hook == n && r.tier == t
+
+/-- resolution order of the plain implementations: store-major (tryfirst, normal, trylast), within a store the classes in
+MRO order, latest registration first -/
+def order (st : State) (c : Cls) (n : Name) : List Reg := tierOrder.flatMap (tierRegs st c n)
+
+/-- `Hook.add_function`: the decision list (flag, store) read from the source, in its if / elif / else order -/
+def pickStore : List (String × String) → Bool → Bool → String
+  | [], _, _ => "<none>"
+  | (c, s) :: l, first, last =>
+    if c == "" || (c == "tryfirst" && first) || (c == "trylast" && last) then s else pickStore l first last
+
+/-- the tier a registration with these flags lands in (3 = a store that is never yielded) -/
+def tierOfFlags (first last : Bool) : Nat :=
+  (tierOfStore (pickStore Gen.C02.Extra.addStoreFor first last)).getD 3
+
+/-- `Hook.remove_function(func)`: does it remove registration `r`?  `store.remove(func)` removes the registration object
+itself, from the stores the source lists -/
+def removes (r : Reg) (key : Id) : Bool :=
+  r.key == key && Gen.C02.Extra.removeMatches == "func" && Gen.C02.Extra.removeStores.contains (storeName r.tier)
+
+/-! ### executing marks (`HookFunction.__call__`) -/
+
+/-- `key in self._active_instances` -/
+def State.marked (st : State) (k : Id) (i : Inst) : Bool := st.active.contains (k, i)
+
+/-- `self._active_instances.add(key)` (a set: adding a present mark changes nothing) -/
+def State.enter (st : State) (k : Id) (i : Inst) : State :=
+  if st.marked k i then st else { st with active := (k, i) :: st.active }
+
+/-- is the mark discarded on this way out?  Read from the GENERATED tables: the guard of the discard (`if not cycle`) and
+whether it sits in the `finally` clause (then it also runs when the function raised) -/
+def discards (cyc failed : Bool) : Bool :=
+  (if Gen.C02.Extra.callDiscardGuard == "unless cycle" then !cyc else Gen.C02.Extra.callDiscardGuard == "always") &&
+  (!failed || Gen.C02.Extra.callDiscardInFinally)
+
+/-- `self._active_instances.discard(key)` where the source does it -/
+def State.leave (st : State) (cyc failed : Bool) (k : Id) (i : Inst) : State :=
+  if discards cyc failed then { st with active := st.active.erase (k, i) } else st
+
+/-! ### the `root_hooks` list (`_RootHooksList`) -/
+
+def idxOf {α : Type} [DecidableEq α] (p : α) : List α → Option Nat
+  | [] => none
+  | x :: l => if x = p then some 0 else (idxOf p l).map (· + 1)
+
+/-- python `list.insert(k, x)` (beyond the end: appended) -/
+def insertAt {α : Type} (x : α) : Nat → List α → List α
+  | 0, l => x :: l
+  | _ + 1, [] => [x]
+  | k + 1, y :: l => y :: insertAt x k l
+
+/-- `self.insert(self.index(position) + shift, item)`; `none` = ValueError (`position` is not in the list) -/
+def insertRel {α : Type} [DecidableEq α] (shift : Nat) (p x : α) (l : List α) : Option (List α) :=
+  (idxOf p l).map fun k => insertAt x (k + shift) l
+
+/-- delete the LAST occurrence; `none` = ValueError -/
+def removeLastOcc {α : Type} [DecidableEq α] (x : α) : List α → Option (List α)
+  | [] => none
+  | y :: l =>
+    match removeLastOcc x l with
+    | some l' => some (y :: l')
+    | none => if y = x then some l else none
+
+/-- delete the FIRST occurrence; `none` = ValueError -/
+def removeFirstOcc {α : Type} [DecidableEq α] (x : α) : List α → Option (List α)
+  | [] => none
+  | y :: l => if y = x then some l else (removeFirstOcc x l).map (y :: ·)
+
+/-- `_RootHooksList.remove_last` as the GENERATED description says -/
+def rootRemove {α : Type} [DecidableEq α] (x : α) (l : List α) : Option (List α) :=
+  if Gen.C02.Extra.removeLastWhich == "last" then removeLastOcc x l
+  else if Gen.C02.Extra.removeLastWhich == "first" then removeFirstOcc x l else none
+
+/-- `_RootHooksList.add` as the GENERATED description says -/
+def rootAdd {α : Type} [DecidableEq α] (x : α) (l : List α) : List α :=
+  if Gen.C02.Extra.rootAddMode == "append" then l ++ [x]
+  else if Gen.C02.Extra.rootAddMode == "append unless present" then (if x ∈ l then l else l ++ [x]) else l
 
 /-! ### evaluation -/
 
@@ -199,12 +329,14 @@ def ev : Nat → State → Task → State × Res
     | none => finishGet i n (ev f st (.chain i (order st (st.obj i).cls n)))
   | _ + 1, st, .chain _ [] => (st, .none)
   | f + 1, st, .chain i (r :: rs) =>
-    match ev f (st.log r.id) (.body i r.body) with
-    | (st1, .none) => ev f st1 (.chain i rs)
-    | (st1, .val v) => (st1, .val v)
-    | (st1, .attrErr) => (st1, .attrErr)
-    | (st1, .typeErr) => (st1, .typeErr)
-    | (st1, .fuelOut) => (st1, .fuelOut)
+    -- `HookFunction.__call__`: cycle := mark present; set the mark; run the function (it is given `cycle` when it has
+    -- such a parameter); remove the mark on every way out (unless the call was a cycled one)
+    match ev f ((st.log r.id).enter r.key i) (.body i (r.body.under (st.marked r.key i))) with
+    | (st1, .none) => ev f (st1.leave (st.marked r.key i) false r.key i) (.chain i rs)
+    | (st1, .val v) => (st1.leave (st.marked r.key i) false r.key i, .val v)
+    | (st1, .attrErr) => (st1.leave (st.marked r.key i) true r.key i, .attrErr)
+    | (st1, .typeErr) => (st1.leave (st.marked r.key i) true r.key i, .typeErr)
+    | (st1, .fuelOut) => (st1.leave (st.marked r.key i) true r.key i, .fuelOut)
   | _ + 1, st, .body _ (.const v) => (st, .val v)
   | _ + 1, st, .body _ .none => (st, .none)
   | f + 1, st, .body i (.read m k c) => combine k c (ev f st (.get i m))
@@ -215,6 +347,9 @@ def ev : Nat → State → Task → State × Res
     | (st1, .none) => combine k c (ev f st1 (.get i m))
     | (st1, .typeErr) => (st1, .typeErr)
     | (st1, .fuelOut) => (st1, .fuelOut)
+  -- a `cycle`-aware body that is not called through `HookFunction.__call__` with a mark present: `cycle` is False
+  | f + 1, st, .body i (.cread m k c) => ev f st (.body i (.read m k c))
+  | f + 1, st, .body i (.ctry m k c) => ev f st (.body i (.tryRead m k c))
 
 /-! ### loops of `reevaluate_cache` and `evaluate_and_set_hooks` -/
 
@@ -286,8 +421,15 @@ inductive Op where
   | evalRoot (i : Inst)
   | setFallback (i : Inst) (j : Option Inst)
   | handOver (i : Inst) (c : Cls)
+  | addReg (key fn : Id) (c : Cls) (n : Name) (b : Body) (first last : Bool)   -- `add_function(f, tryfirst, trylast)`,
+                                                    -- also `with hook(f, ...):` (enter) and re-registration of a function
+  | rootAdd (e : Cls × Name)                        -- `root_hooks.add(e)`
+  | rootInsertBefore (p e : Cls × Name)             -- `root_hooks.insert_before(p, e)`
+  | rootInsertAfter (p e : Cls × Name)              -- `root_hooks.insert_after(p, e)`
+  | rootRemoveLast (e : Cls × Name)                 -- `root_hooks.remove_last(e)`
 
 inductive Out where
+  | valueErr
   | ok
   | res (r : Res)
   | flag (b : Bool)
@@ -316,7 +458,7 @@ def step (fuel : Nat) (st0 : State) (op : Op) : State × Out :=
   | .reevaluate i => let r := reeval fuel i st; (r.1, .res r.2)
   | .clearCache i => (st.setObj i { st.obj i with cache := [] }, .ok)
   | .addImpl id c n b => ({ st with regs := st.regs ++ [{ id := id, cls := c, hook := n, body := b }] }, .ok)
-  | .removeImpl id => ({ st with regs := st.regs.filter fun r => r.id != id }, .ok)
+  | .removeImpl key => ({ st with regs := st.regs.filter fun r => !(removes r key) }, .ok)
   | .hasSet i n => (st, .flag (hasSet st i n))
   | .hasCached i n => (st, .flag (hasCached st i n))
   | .hasSetOrCached i n => (st, .flag (hasSet st i n || hasCached st i n))
@@ -333,6 +475,22 @@ def step (fuel : Nat) (st0 : State) (op : Op) : State × Out :=
   | .handOver i c =>
     -- `Unit.Profile.__init__`: exactly the public `__dict__` entries of the template; a fresh `__cache__`
     ({ st.setObj st.n { cls := c, dict := (st.obj i).dict, cache := [], fb := none } with n := st.n + 1 }, .ok)
+  | .addReg key fn c n b first last =>
+    ({ st with regs := st.regs ++ [{ id := fn, cls := c, hook := n, body := b, key := key, tier := tierOfFlags first last }] },
+     .ok)
+  | .rootAdd e => ({ st with roots := rootAdd e st.roots }, .ok)
+  | .rootInsertBefore p e =>
+    match insertRel Gen.C02.Extra.insertBeforeShift p e st.roots with
+    | some l => ({ st with roots := l }, .ok)
+    | none => (st, .valueErr)
+  | .rootInsertAfter p e =>
+    match insertRel Gen.C02.Extra.insertAfterShift p e st.roots with
+    | some l => ({ st with roots := l }, .ok)
+    | none => (st, .valueErr)
+  | .rootRemoveLast e =>
+    match rootRemove e st.roots with
+    | some l => ({ st with roots := l }, .ok)
+    | none => (st, .valueErr)
 
 def run (fuel : Nat) (st : State) (ops : List Op) : State :=
   ops.foldl (fun s op => (step fuel s op).1) st
